@@ -328,6 +328,10 @@ TrLeapWith == IsOp("leap_with") /\ KeepD /\ UNCHANGED <<e, eout>> /\ e.ts \in X!
       IN  \/ (Has(E.res, "none") /\ -1 \in S)
           \/ (Has(E.res, "some") /\ F64IsInt(E.res.some) /\ ~E.res.some.neg /\ B!ToInt(F64Int(E.res.some)) \in S)
 
+(* leap_seconds(false): with the SOFA entries.  Its value is not pinned; it is recorded so that the calls that  *)
+(* follow it are judged in its wake (the non-IERS entries must not influence conversions)                      *)
+TrLeapAll == IsOp("leap_all") /\ KeepD /\ UNCHANGED <<e, eout>> /\ (Has(E.res, "none") \/ (Has(E.res, "some") /\ E.res.some.k = "fin"))
+
 (* sorted sweep TAI -> UTC: each item admissible, and never earlier than its predecessor (C06) *)
 TrSweepUtc == IsOp("sweep_utc") /\ KeepD /\ UNCHANGED <<e, eout>> /\ IsEp(E.res) /\ E.res.ts = X!UTC
               /\ DV(E.res) \in X!TaiToUtcSet(DV(E.tai))
@@ -375,7 +379,7 @@ Dev_F11 ==
   /\ Known("F11")
 
 EpochNext1 ==
-  \/ TrRefConst \/ TrOffsetConsts \/ TrLeapDump \/ TrLeapNaif \/ TrLeapQuery \/ TrLeapFile \/ TrLeapWith
+  \/ TrRefConst \/ TrOffsetConsts \/ TrLeapDump \/ TrLeapNaif \/ TrLeapQuery \/ TrLeapFile \/ TrLeapWith \/ TrLeapAll
   \/ TrELoad \/ TrEAdd \/ TrESub \/ TrEAddU \/ TrESubU \/ TrEAddF \/ TrESubE
   \/ TrToScale \/ TrToDur \/ TrECmp \/ TrERange \/ TrESort \/ TrEFloor \/ TrECeil \/ TrERound
   \/ TrFromGreg \/ TrFromGregFar \/ TrIsValid \/ TrToGreg \/ TrWeekday \/ TrNext \/ TrPrev
